@@ -52,7 +52,9 @@ def tame_definition(rng, singular):
         model[s] = sympy.sympify(e)
     if singular:
         model[state[1]] = model[state[0]]
-    sensors = {"alt0": {"r1": state[0] + state[-1], "r2": 2 * state[1] - 1 / (1 + state[0] ** 2)}}
+    sensors = {"alt0": {"r1": state[0] + state[-1], "r2": 2 * state[1] - 1 / (1 + state[0] ** 2)},
+               # two different states observed directly by one precise sensor (they become correlated through the dynamics)
+               "direct9": {"d1": state[0], "d2": state[-1]}}
     return gen.Definition(dt, state, [u], [], model, sensors)
 
 
@@ -72,6 +74,9 @@ def min_eig_rel(P):
 def float_history(ctx, d, name, nops, singular_start, scale=1.0):
     rng = ctx.rng
     process, sensor = eh.make_noises(rng, d)
+    if "direct9" in sensor:
+        from fractions import Fraction as _Fr
+        sensor["direct9"] = {r: _Fr(1, 100) for r in sensor["direct9"]}
     if scale != 1.0:
         # a consistently scaled problem: covariance AND noises times `scale` (same conditioning, different magnitude)
         from fractions import Fraction
